@@ -1,4 +1,162 @@
 import Model.Base.Proto
+import Model.Storage.Upload
+import Model.Spec.UploadAtomic
 
-/-- stub: replaced when the property's driver is built -/
-def main : IO Unit := pure ()
+namespace Driver.C20
+open Proto Storage.Upload
+
+/- case <id> kind=up day=YYYYMMDD user=<hex> store=local|mem reqs=<req>;<req>;…
+     req   = <parts>|<endErr>|<fault>|<cut>
+     parts = - | part+part+…    part = X:<name hex> | F:<fname hex>:<content hex>:<cut>:<chunks a.b.c or ->
+     fault = - | <k>.<o|s>.<d|l>
+   case <id> kind=ids day=… ops=<m><c|a>,…
+   case <id> kind=conc g=… m=… -/
+
+def hexD (s : String) : Bytes := (Bytes.ofHex s).getD []
+
+def parsePart (s : String) : Option Part :=
+  match s.splitOn ":" with
+  | ["X", n] => some (Part.field (hexD n))
+  | ["F", fnm, c, cut, ch] =>
+    let chunks := if ch == "-" then [] else (ch.splitOn ".").filterMap String.toNat?
+    some (Part.file (hexD fnm) (hexD c) (cut == "1") chunks)
+  | _ => none
+
+def parseFault (s : String) : Option Fault :=
+  match s.splitOn "." with
+  | [k, m, l] => k.toNat?.map fun k => { k := k, sticky := m == "s", leaves := l == "l" }
+  | _ => none
+
+def parseReq (s : String) : Option (Req × Nat) :=
+  match s.splitOn "|" with
+  | [ps, e, f, c] =>
+    let parts := if ps == "-" then [] else (ps.splitOn "+").filterMap parsePart
+    some ({ parts := parts, endErr := e == "1", fault := parseFault f }, c.toNat?.getD 0)
+  | _ => none
+
+def str (b : Bytes) : String := String.ofList (b.map fun c => Char.ofNat c.toNat)
+
+def idStr (k : UKey) : String := str (renderId k)
+
+def pathStr (p : Path) : String := s!"uploads/{idStr p.up}/{p.part}.txt"
+
+def joinOr (l : List String) : String := if l.isEmpty then "-" else ",".intercalate l
+
+def sortStrings (l : List String) : List String := l.mergeSort (fun a b => !(b < a))
+
+def showTrace (t : List Op) : String :=
+  let rec go : List Op → Option Nat → List String
+    | [], acc => (match acc with | some n => [s!"W{n}"] | none => [])
+    | Op.wr n true :: r, acc => go r (some (acc.getD 0 + n))
+    | op :: r, acc =>
+      (match acc with | some n => [s!"W{n}"] | none => []) ++
+      [match op with
+        | Op.nw true => "N" | Op.nw false => "N!"
+        | Op.wr _ _ => "W!"
+        | Op.cl true => "C" | Op.cl false => "C!"
+        | Op.cwe => "E"] ++ go r none
+  joinOr (go t none)
+
+def errStr : Err → String
+  | .body => "body" | .field => "field" | .nofiles => "nofiles" | .nobench => "nobench" | .fs => "fs" | .db => "db"
+
+def partLabel (r : RRow) : String :=
+  str ((r.labels.lookup (Bytes.ofString "upload-part")).getD [])
+
+def showSearch (db : DB) : String :=
+  joinOr (sortStrings (db.results.map fun x => s!"{partLabel x.1}#{x.2.toHex}"))
+
+def showList (db : DB) : String :=
+  joinOr (db.listing.map fun e => s!"{idStr e.1}:{e.2}")
+
+def showFiles (fs : Store) (withData : Bool) : String :=
+  joinOr (sortStrings (fs.map fun e =>
+    s!"{(Bytes.ofString (pathStr e.1)).toHex}={if withData then e.2.toHex else ""}"))
+
+def specFiles (l : List (Bytes × Bytes)) (withData : Bool) : String :=
+  joinOr (l.map fun e => s!"{e.1.toHex}={if withData then e.2.toHex else ""}")
+
+def b01 (b : Bool) : String := if b then "1" else "0"
+
+def handleUp (l : Line) : IO Unit := do
+  let day := (l.nat? "day").getD 0
+  let user := hexD (l.getD "user")
+  let withData := l.getD "store" == "local"
+  let env : Env := { day := day, user := user, time := [84] }
+  let reqs := ((l.getD "reqs").splitOn ";").filterMap parseReq
+  let mut s : Sys := {}
+  let mut step := 0
+  for (req, cutFlag) in reqs do
+    let o := processUpload env req s
+    s := o.sys
+    let (status, err, fids) := match o.resp with
+      | .ok (_, f) => ("200", "-", joinOr (f.map fun (p : Path) => s!"{idStr p.up}/{p.part}"))
+      | .error e => ("500", errStr e, "-")
+    let rid := match o.alloc with | some k => idStr k | none => "-"
+    let own := match o.alloc with | some k => (s.db.queryUpload k).length | none => 0
+    IO.println s!"obs {l.id} step={step} status={status} err={err} id={rid} fids={fids} trace={showTrace o.trace} nup={s.db.uploads.length} own={own} search={showSearch s.db} list={showList s.db} files={showFiles s.fs withData}"
+    -- specification
+    let fail := Spec.UploadAtomic.mustFail env req (cutFlag != 0)
+    let modelOk := match o.resp with | .ok _ => true | .error _ => false
+    let mut kf : List String := []
+    match req.fault with
+    | some f =>
+      if !f.sticky && (Spec.UploadAtomic.separatorOps env req.parts 0).contains f.k && modelOk then kf := kf ++ ["N20a"]
+      if f.leaves && (Spec.UploadAtomic.closeOps env req.parts 0).contains f.k then kf := kf ++ ["N20b"]
+    | none => pure ()
+    if cutFlag != 0 && modelOk && !Spec.UploadAtomic.structuralFault req then kf := kf ++ ["N20c"]
+    let kfs := if kf.isEmpty then "" else " kf=" ++ "+".intercalate kf
+    if fail then
+      IO.println s!"spec {l.id} step={step} ok=0 vis=0,0,0 listed=0 inprog=0 earlier=1 idsok=1 stored=-{kfs}"
+    else
+      let n := Spec.UploadAtomic.visible req
+      IO.println s!"spec {l.id} step={step} ok=1 vis={n},{n},{n} listed=1 inprog=0 earlier=1 idsok=1 stored={specFiles (Spec.UploadAtomic.storedFiles env req.parts 0) withData}{kfs}"
+    step := step + 1
+
+/-- record j of the db-level scenarios (harness idsRecord) -/
+def idsRes (k : UKey) (j : Nat) : Res :=
+  let v := if j % 3 == 0 then s!"v{j}" else "v0"
+  { labels := [(Bytes.ofString "key", Bytes.ofString v), (Bytes.ofString "upload", renderId k)],
+    name := Bytes.ofString "X", line := Bytes.ofString s!"BenchmarkX {j}" }
+
+def handleIds (l : Line) : IO Unit := do
+  let day := (l.nat? "day").getD 0
+  let ops := (l.getD "ops").splitOn ","
+  let mut db : DB := {}
+  let mut ids : List (Option UKey) := []
+  for op in ops do
+    let commit := op.endsWith "c"
+    let m := ((String.ofList (op.toList.takeWhile Char.isDigit)).toNat?).getD 0
+    match allocId day db.uploads with
+    | none => ids := ids ++ [none]
+    | some k =>
+      db := { db with uploads := db.uploads ++ [k] }
+      ids := ids ++ [some k]
+      let t : Tx := { id := k }
+      match t.insertRecords ((List.range m).map (idsRes k)) with
+      | none => pure ()
+      | some t1 =>
+        if commit then
+          match t1.flush with
+          | some t2 => db := { db with records := db.records ++ t2.txRec }
+          | none => pure ()
+  let idS := ids.map fun o => match o with | some k => idStr k | none => "!"
+  let counts := ids.map fun o => match o with | some k => toString (db.queryUpload k).length | none => "0"
+  IO.println s!"obs {l.id} ids={joinOr idS} counts={joinOr counts} list={showList db} nup={db.uploads.length} all={db.results.length}"
+  IO.println s!"spec {l.id} idsok=1"
+
+def handle (l : Line) : IO Unit := do
+  if l.kind != "case" then return
+  match l.getD "kind" with
+  | "up" => handleUp l
+  | "ids" => handleIds l
+  | "conc" =>
+    -- concurrent creation: what `ids_unique_all_interleavings` promises for every schedule
+    IO.println s!"spec {l.id} distinct=1 fmt=1 rows=1 atomic=1"
+  | _ => pure ()
+
+end Driver.C20
+
+def main : IO Unit := do
+  let stdin ← IO.getStdin
+  Proto.forEachLine stdin fun s => Driver.C20.handle (Proto.parseLine s)
